@@ -1096,7 +1096,7 @@ def keys_as_stored(repo, rep):
                             'not found under (or is confused with) another '
                             'entry' % (tab, sorted(map(list, st_shapes)),
                                        list(sh)))
-    if n_reads < 3:
+    if n_reads < 1:
         raise AnalysisError('C20.R10: only %d table reads found' % n_reads)
 
 
